@@ -71,7 +71,8 @@ Fixpoint parse_exts (fuel : nat) (two_byte : bool) (l : list Z) (n ext_end : Z)
         match l1 with
         | [] => Err EShort                             (* len(buf) <= n *)
         | len :: l2 =>
-          if zlen l2 <? len then Err EShort            (* len(buf) < n + payloadLen *)
+          if ext_end <? n + 2 + len then Err EShort    (* extensionEnd < n + payloadLen: the element overruns its block *)
+          else if zlen l2 <? len then Panic            (* buf[n:n+payloadLen]; inside buf because the block is *)
           else parse_exts f two_byte (drop len l2) (n + 2 + len) ext_end
                           (mkExt b (take len l2) :: acc) (n + 2 :: offs)
         end
@@ -79,7 +80,8 @@ Fixpoint parse_exts (fuel : nat) (two_byte : bool) (l : list Z) (n ext_end : Z)
         let id := Z.shiftr b 4 in
         let len := u8 (Z.land b 15 + 1) in             (* int(buf[n]&^0xF0 + 1) *)
         if id =? 15 then Ok (rev acc, rev offs, n + 1, l1)   (* reserved id: break *)
-        else if zlen l1 <? len then Err EShort
+        else if ext_end <? n + 1 + len then Err EShort
+        else if zlen l1 <? len then Panic
         else parse_exts f two_byte (drop len l1) (n + 1 + len) ext_end
                         (mkExt id (take len l1) :: acc) (n + 1 :: offs)
     end
